@@ -400,6 +400,16 @@ fn gen_case(rng: &mut Rng, idx: u64, thorough: bool) -> Case {
             }
         }
     }
+    // one case in four: one more file, outside the tree, given explicitly, whose name begins or ends with
+    // white space (legal; a path list read from standard input must take such a line as it is)
+    if rng.chance(1, 4) {
+        let w = rng.pick(&[" lead.bin", "trail.bin ", " both ", "tab\tend\t"]).to_string();
+        if !files.iter().any(|f| f.path == w) {
+            files.push(FileSpec { path: w.clone(), size: rng.range(1, 300), class: rng.below(5) as u8, seed: rng.next_u64() });
+            let at = rng.below(args.len() as u64 + 1) as usize;
+            args.insert(at, rel(&w));
+        }
+    }
     // forms of the arguments: occasionally absolute, "./"-prefixed or (directories) with a trailing '/'
     if rng.chance(1, 8) {
         let i = rng.below(args.len() as u64) as usize;
@@ -713,7 +723,9 @@ impl<'a> Exec<'a> {
                     }
                 }
                 // one `create` in three takes its paths from standard input (`-`), one per line, exactly as written
-                let via_stdin = fnv(file_args.join("\u{0}").as_bytes()) % 3 == 1 && !file_args.is_empty() && file_args.iter().all(|a| !a.contains('\n') && !a.contains('\r') && !a.is_empty());
+                let edge_ws = file_args.iter().any(|a| a.starts_with(char::is_whitespace) || a.ends_with(char::is_whitespace));
+                let hsh = fnv(file_args.join("\u{0}").as_bytes());
+                let via_stdin = (hsh % 3 == 1 || (edge_ws && hsh % 2 == 0)) && !file_args.is_empty() && file_args.iter().all(|a| !a.contains('\n') && !a.contains('\r') && !a.is_empty());
                 if via_stdin {
                     args.push(s("-"));
                     stdin_list = Some(file_args.iter().map(|a| format!("{a}\n")).collect::<String>().into_bytes());
